@@ -895,6 +895,13 @@ def check(run):
     run.prove(MODULE, THEOREMS)
     run.source_tie(['SrcCurved'], 'GeoVerif.Props.C03Src',
                    ['GV.C03Src.' + t for t in ('containsCircle_eq', 'containsEllipse_eq', 'containsRing_eq')])
+    # the vertex generators themselves (`bounding_coords`, `_radius_at_angle`, `_draw_bounds`) and the analytic bounds,
+    # translated from the text and proved equal to Model/Sphere's rings for every destination function
+    run.source_tie(['SrcCurvedGen'], 'GeoVerif.Props.C03SrcGen', ['GV.C03SrcGen.' + t for t in (
+        'radiusAtAngle_eq', 'circle_loop_eq', 'circleRing_eq', 'ellipse_loop_eq', 'ellipseRing_eq', 'ring_loop_eq', 'ringArcs_eq',
+        'wedgeRing_eq', 'circleBounds_eq', 'ellipseBounds_eq', 'circleRing_eq_model', 'ellipseRing_eq_model', 'ringArcs_eq_model',
+        'wedgeRing_eq_model', 'circleRing_eq_calc', 'wedgeRing_eq_calc', 'circleRing_eq_raw', 'ellipseRing_eq_raw', 'wedgeRing_eq_raw',
+        'src_circleRing_on_circle', 'src_ring_closed', 'src_ellipseRing_on_curve', 'src_wedgeRing_closed')])
     rng = run.rng
     kinds = {}
     n_shapes = run.scale(130, 3400)
